@@ -26,7 +26,8 @@ EXPECTED_PROBES = ['abandon_at_connected', 'abandon_at_poll',
                    'abandon_at_unresponsive', 'abandon_while_closing',
                    'abandon_in_persist', 'abandon_at_ready',
                    'abandon_while_other_thread_sends',
-                   'reconnected_before_release']
+                   'reconnected_before_release', 'abandon_at_failed_attempt',
+                   'long_url']
 
 MECH = ['break', 'raise', 'close', 'with']
 SLOTS = 4 * 120
@@ -65,6 +66,8 @@ def _tinfo(b):
 def plan(tier):
     nb = len(C09.bases())
     return [('sweep', nb * SLOTS),
+            ('sweep_long_url', nb * SLOTS),
+            ('early_faults', nb * len(EARLY) * 6 * 4),
             ('rebind', nb * (SLOTS // 4)),
             ('seeded', 2000 if tier == 'quick' else 100000),
             ('threaded_sweep', len(TBASES) * TSLOT * 2),
@@ -143,9 +146,39 @@ def _execute_threaded(case):
     return res
 
 
+# what can go wrong before the connection is up (the events of such an
+# attempt are few: every index x every mechanism is enumerated)
+EARLY = [{'op': 'sendall', 'k': 0, 'kind': 'reset'},
+         {'op': 'sendall', 'k': 0, 'kind': 'epipe'},
+         {'op': 'sendall', 'k': 0, 'kind': 'exc'},
+         {'op': 'sendall', 'k': 0, 'kind': 'timeout'},
+         {'op': 'sendall', 'k': 1, 'kind': 'reset'},
+         {'op': 'sendall', 'k': 1, 'kind': 'exc'},
+         {'op': 'recv', 'k': 0, 'kind': 'reset'},
+         {'op': 'recv', 'k': 0, 'kind': 'exc'},
+         {'app': 'close_at_connecting'},
+         {'app': 'close_at_connected'}]
+
+
 def make_case(family, i, rng, tier):
     if family.startswith('threaded'):
         return _threaded_case(family, i, rng)
+    if family == 'sweep_long_url':
+        c = make_case('sweep', i, rng, tier)
+        if c is not None:
+            c['long_url'] = 120 + (i % 3) * 60
+        return c
+    if family == 'early_faults':
+        m = i % 4
+        i //= 4
+        idx = i % 6
+        i //= 6
+        f = EARLY[i % len(EARLY)]
+        b = i // len(EARLY)
+        if C09._bases()[b].get('persist'):
+            return None
+        return {'base': b, 'index': idx, 'how': MECH[m], 'faults': [],
+                'early': f}
     if family == 'sweep':
         b = i // SLOTS
         slot = i % SLOTS
@@ -173,8 +206,19 @@ def make_case(family, i, rng, tier):
 
 
 def build(case):
-    sc = C09.build({'base': case['base'], 'faults': case.get('faults') or []})
+    faults = list(case.get('faults') or [])
+    early = case.get('early')
+    if early and 'op' in early:
+        faults.append(dict(early))
+    sc = C09.build({'base': case['base'], 'faults': faults})
     app = list(sc.get('app') or [])
+    if early and 'app' in early:
+        app.insert(0, {'when': {'name': early['app'].split('_at_')[1]},
+                       'do': [{'op': 'close'}]})
+    if case.get('long_url'):
+        # (a long but legal URL: a token in the query string)
+        sc['url'] += ('&' if '?' in sc['url'] else '?') + 'token=' + \
+            't' * case['long_url']
     app.insert(0, {'when': {'index': case['index']},
                    'do': [{'op': 'abandon', 'how': case['how']}]})
     sc['app'] = app
@@ -250,8 +294,13 @@ def execute(case):
         res.stats['probe:abandon_in_persist'] += 1
     if how == 'rebind':
         res.stats['probe:reconnected_before_release'] += 1
+    if case.get('early'):
+        res.stats['probe:abandon_at_failed_attempt'] += 1
+    if case.get('long_url'):
+        res.stats['probe:long_url'] += 1
     res.nontrivial = bool(w.socks)
-    res.sig = '%s|%d|%s|%r' % (base, idx, how, case.get('faults'))
+    res.sig = '%s|%d|%s|%r|%r|%r' % (base, idx, how, case.get('faults'),
+                                     case.get('early'), case.get('long_url'))
     res.sample = {'base': base, 'abandon_at': idx, 'event': evname,
                   'how': how, 'faults': case.get('faults'),
                   'release': rel, 'events': names[-6:]}
